@@ -116,7 +116,7 @@ class NextResponse(StreamingResponse):
                 if not message.get("more_body", False):
                     await body.push_eof()
 
-        await app(request, request._receive, send)
+        await app(request._scope, request._receive, send)  # the scope is a dict
         response = NextResponse(body, status_code, headers)
         response.cookies.extend(RawCookie(line) for line in set_cookies)
         return response
